@@ -44,6 +44,15 @@ type StringV struct {
 	Off, Len *Term
 	Alias    *ArrayObj // non-nil when the string shares memory with a byte array (unsafe conversion)
 	Tok      *Term     // non-nil: opaque token string (uninterpreted); B is nil
+	Opq      *Opaque   // structured opaque string (Tok is a placeholder then)
+}
+
+// Opaque is a string whose text is not modelled but whose identity is: equal
+// kind and equal parts mean equal text (formatting functions are injective on
+// their arguments). Parts are *Term or *StringV.
+type Opaque struct {
+	Kind  string
+	Parts []interface{}
 }
 
 type StructV struct {
